@@ -7,6 +7,7 @@ from utype.utils.transform import type_transform
 from vt import typedesc as td
 from vt.conv import GROUPS, I, S, parse, real, small, sym_flags, tiny
 from vt.ob import ob
+from vt.h import attempt
 from vt.values import value
 
 PROP = 'C01'
@@ -263,3 +264,79 @@ def sym_float(V):
         V.cover('accept')
     else:
         V.cover('reject')
+
+
+# ------------------------------------------------------------------ field constraints on a type named by a forward reference
+FWD_SRC = '''
+from typing import List, Optional
+import utype
+from utype import Schema, Field, Param, Rule
+
+
+class Order@@(Schema):
+    quantity: 'Quantity@@' = Field(le=100)
+    spare: 'Quantity@@' = Field(le=5, default=0)
+    lots: List['Quantity@@'] = Field(default_factory=list, max_length=2)
+
+
+@utype.parse
+def order@@(quantity: 'Quantity@@' = Param(le=100), *more: 'Quantity@@') -> 'Quantity@@':
+    return quantity + sum(more)
+
+
+class Quantity@@(int, Rule):
+    ge = 0
+'''
+_FWD_N = [0]
+
+
+@ob('forward-field', marks=['accept', 'reject'], budget=(60, 200),
+    bounds="a data class and a decorated function whose field / parameter is annotated with the NAME of a constrained type defined "
+           "later ('Quantity': ge=0) plus constraints of its own (Field(le=100), Field(le=5), List['Quantity'] with max_length=2, "
+           "Param(le=100)); values unbounded solver ints | \"5\" | \"x\"; freshly declared per path (first call included): an accepted "
+           'value satisfies the constraints of the named type and of the field')
+def forward_field(V):
+    import sys
+    import types as pytypes
+    with V.notrace():
+        _FWD_N[0] += 1
+        n = _FWD_N[0]
+        name = 'vt_c01_fwd_%d' % n
+        mod = pytypes.ModuleType(name)
+        sys.modules[name] = mod
+        exec(compile(FWD_SRC.replace('@@', str(n)), name + '.py', 'exec'), mod.__dict__)
+    try:
+        def val(nm):
+            k = V.pick(nm + '_k', ['int', 'num', 'bad'])
+            return V.int(nm) if k == 'int' else '5' if k == 'num' else 'x'
+        if V.bool('function'):
+            q = val('q')
+            more = [val('m%d' % i) for i in range(V.pick('n_more', [0, 1]))]
+            r = attempt(getattr(mod, 'order%d' % n), q, *more)
+            if r[0] != 'ok':
+                V.check(r[0] == 'err', 'conform:forward-field:crash', lambda: 'order(%r, *%r) -> %r' % (q, more, r))
+                V.cover('reject')
+                return
+            V.check(type(r[1]) is int and r[1] >= 0, 'conform:forward-field:return', lambda: 'order(%r, *%r) -> %r' % (q, more, r[1]))
+            qq = 5 if q == '5' else q
+            V.check(isinstance(qq, int) and 0 <= qq <= 100 and all((5 if m == '5' else m) >= 0 for m in more if m != 'x') and 'x' not in more,
+                    'conform:forward-field:parameter', lambda: 'order(%r, *%r) accepted -> %r' % (q, more, r[1]))
+            V.cover('accept')
+            return
+        d = {'quantity': val('quantity')}
+        if V.bool('has_spare'):
+            d['spare'] = val('spare')
+        if V.bool('has_lots'):
+            d['lots'] = [val('l%d' % i) for i in range(V.pick('n_lots', [1, 2, 3]))]
+        r = attempt(getattr(mod, 'Order%d' % n), **d)
+        if r[0] != 'ok':
+            V.check(r[0] == 'err', 'conform:forward-field:crash', lambda: 'Order(**%r) -> %r' % (d, r))
+            V.cover('reject')
+            return
+        o = r[1]
+        ok = (type(o.quantity) is int and 0 <= o.quantity <= 100 and type(o.spare) is int and 0 <= o.spare <= 5
+              and isinstance(o.lots, list) and len(o.lots) <= 2 and all(type(x) is int and x >= 0 for x in o.lots))
+        V.check(ok, 'conform:forward-field', lambda: 'Order(**%r) -> %r' % (d, dict(o)))
+        V.cover('accept')
+    finally:
+        sys.modules.pop(name, None)
